@@ -37,8 +37,8 @@ def last(o):
 ok = suite_ok and w.returncode != 0 and wo.returncode == 0
 meta["confirmed_by_me"] = "suite_with_change: %d passed %d failed (failing targets: %s; others than the demonstration: %s) | demo_with rc=%d: %s | demo_without rc=%d: %s" % (
     passed, failed, failing_targets, other, w.returncode, last(w), wo.returncode, last(wo))
-meta["round"] = 4
-meta["origin"] = "independent sub-agent (round 4) given only the property text, one-sentence summaries of earlier seeds to avoid, a focus hint (code area) and a scratch worktree of /repo (HEAD incl. the fix: commits); nothing from /verif"
+meta["round"] = int(os.environ.get("SEED_ROUND", "5"))
+meta["origin"] = "independent sub-agent (round %s)" % os.environ.get("SEED_ROUND", "5") + " given only the property text, one-sentence summaries of earlier seeds to avoid, a focus hint (code area) and a scratch worktree of /repo (HEAD incl. the fix: commits); nothing from /verif"
 print(("CONFIRMED " if ok else "NOT-CONFIRMED ") + name + " :: " + meta["confirmed_by_me"])
 if ok:
     d = os.path.join("/verif/seeded", name)
